@@ -139,13 +139,178 @@ def real_caret_line(binary, pre_lens, widths, a, b):
     return text, lines[idx + 1], r
 
 
+# ---------------------------------------------------------------- clause B: the reported row is the line on which the span starts
+CMP = {">": lambda x, y: x > y, ">=": lambda x, y: x >= y, "<": lambda x, y: x < y, "<=": lambda x, y: x <= y}
+
+
+def extract_row():
+    """the span-state machine of the line loop, re-read from source as exact statements (whitespace removed); anything else is exit 2"""
+    src = re.sub(r"//[^\n]*", "", read_repo(F_SRC))
+    fn = re.sub(r"\s+", "", extract_fn(src, "text_with_carats_and_line_count_buffer_and_line_numbers"))
+    need(re.search(r"for\(line_index,line_content\)infile_text\.split\('\\n'\)\.enumerate\(\)\{letstart_of_line=cur_index;cur_index\+=line_content\.len\(\)\+1;letend_of_line=cur_index;letshould_print_carats=matchspan_state\{", fn),
+         "line loop head (row clause)")
+    need(re.search(r"letmutcur_index=0;", fn), "cur_index starts at 0")
+    need(re.search(r"letmutline_row=None;letmutspan_state=SpanState::Before;", fn), "initial line_row / span_state")
+    COND = r"(end_of_line|start_of_line)(>=|<=|>|<)actual_span\.(start|end)asusize"
+    ROWCOL = r"line_row=Some\(\(OneIndexedRowNumber\(\((line_indexasu32\+1|\(line_index\+1\)asu32|line_indexasu32|line_indexasu32\+2)\)\.try_into\(\)\.unwrap\(\)\),OneIndexedColNumber\(\((actual_span\.start-\(start_of_lineasu32\)\+1|actual_span\.start-start_of_lineasu32\+1)\)\.try_into\(\)\.expect\(\"[^\"]*\"\),?\),?\)\);"
+    m = need(re.search(r"SpanState::Before=>\{if" + COND + r"\{" + ROWCOL + r"span_state=SpanState::After;true\}elseif" + COND + r"\{" + ROWCOL + r"span_state=SpanState::Inside;true\}else\{false\}\}"
+                       r"SpanState::Inside=>\{if" + COND + r"\{span_state=SpanState::After;\}true\}SpanState::After=>false,?\};", fn), "span-state machine (Before / Inside / After arms)")
+    g = m.groups()
+    ROWX = {"line_indexasu32+1": 1, "(line_index+1)asu32": 1, "line_indexasu32": 0, "line_indexasu32+2": 2}
+    need(re.search(r"return\(\"\"\.to_string\(\),line_row\);", fn) and re.search(r"\.join\(\"\\n\"\),line_row,?\)\}$", fn), "line_row is what the function returns")
+    return {"before_to_after": {"cond": list(g[0:3]), "row_plus": ROWX[g[3]]}, "before_to_inside": {"cond": list(g[5:8]), "row_plus": ROWX[g[8]]}, "inside_to_after": {"cond": list(g[10:13])}}
+
+
+def expected_row(lens, s):
+    sol = 0
+    for i, l in enumerate(lens):
+        if sol <= s < sol + l + 1:
+            return i + 1
+        sol += l + 1
+    return None
+
+
+def concrete_row(R, lens, s, e):
+    """(row, underflow) the extracted state machine reports"""
+    state, row, sol = 0, None, 0
+    for i, l in enumerate(lens):
+        eol = sol + l + 1
+        val = {"end_of_line": eol, "start_of_line": sol, "start": s, "end": e}
+        c = lambda k: CMP[R[k]["cond"][1]](val[R[k]["cond"][0]], val[R[k]["cond"][2]])
+        if state == 0:
+            if c("before_to_after"):
+                if s < sol:
+                    return None, True
+                row, state = i + R["before_to_after"]["row_plus"], 2
+            elif c("before_to_inside"):
+                if s < sol:
+                    return None, True
+                row, state = i + R["before_to_inside"]["row_plus"], 1
+        elif state == 1 and c("inside_to_after"):
+            state = 2
+        sol = eol
+    if row is not None and row < 1:
+        return None, True            # NonZeroU32 conversion of 0 is unwrapped
+    return row, False
+
+
+def row_items(lens_list):
+    items = []
+    for lens, fill in lens_list:
+        text = "\n".join(fill * l for l in lens)
+        w = len(fill.encode())
+        blens = [l * w for l in lens]
+        total = len(text.encode())
+        bounds = set()
+        sol = 0
+        for l in blens:
+            for k in range(0, l + 1, w):
+                bounds.add(sol + k)
+            bounds.add(sol + l + 1)
+            sol += l + 1
+        bounds = sorted(b for b in bounds if b <= total)
+        for s_ in bounds:
+            for e_ in bounds:
+                if s_ < e_:
+                    items.append((text, blens, s_, e_))
+    return items
+
+
+def row_clause(binary, B, queries, samples, violations, infra):
+    import itertools
+    # ---- stage 0 (native guard, enumeration, independent of the extractor): every text of <= 3 lines of 0..2 characters, every span on character boundaries
+    shapes = [(list(ls), "x") for m in (1, 2, 3) for ls in itertools.product((0, 1, 2), repeat=m)] + [(list(ls), "\u00e9") for m in (2, 3) for ls in itertools.product((0, 1), repeat=m)]
+    items = row_items(shapes)
+    res = run_driver(binary, [{"text": t, "start": s_, "end": e_} for t, _, s_, e_ in items])
+    n_guard = 0
+    for (t, blens, s_, e_), r in zip(items, res):
+        want = expected_row(blens, s_)
+        got = "PANIC" if r.get("panic") else r.get("row")
+        n_guard += 1
+        if got != want:
+            rp = os.path.join(REPLAYS, PROP, "row_guard")
+            os.makedirs(rp, exist_ok=True)
+            with open(os.path.join(rp, "input.json"), "w") as f:
+                f.write(json.dumps({"text": t, "start": s_, "end": e_}) + "\n")
+            with open(os.path.join(rp, "REPLAY.md"), "w") as f:
+                f.write("Property C31 (native row guard): text %r, span bytes [%d,%d): reported row %r, the span starts on line %r\nRun: bash %s/replay.sh\n" % (t, s_, e_, got, want, rp))
+            with open(os.path.join(rp, "replay.sh"), "w") as f:
+                f.write("#!/bin/bash\n%s < %s/input.json\nexit 1\n" % (binary, rp))
+            violations.append(("native row guard: text %r, span bytes [%d,%d): reported row is %r, the span starts on line %r" % (t, s_, e_, got, want), rp))
+            samples.append({"text": t, "span_bytes": [s_, e_], "real_row": got, "expected_row": want, "stage": "row guard"})
+            break
+    R = extract_row()
+    # ---- translator validation: the extracted state machine reproduces the row the real function reports
+    n_valid = 0
+    for (t, blens, s_, e_), r in list(zip(items, res))[::7]:
+        row, uf = concrete_row(R, blens, s_, e_)
+        got = "PANIC" if r.get("panic") else r.get("row")
+        if (("PANIC" if uf else row) != got) and not (uf and got != "PANIC"):     # release-profile wrap-around is not a panic; only agreement on rows is demanded
+            raise Inconclusive("row translator validation failed on %r [%d,%d): model %r, real %r" % (t, s_, e_, row, got))
+        n_valid += 1
+    # ---- solver: m lines of symbolic byte length, symbolic span inside the text
+    for m in range(1, B["row_lines"] + 1):
+        q = Query("C31_row_lines%d" % m, solver_timeout_s=120, simple=True)
+        L = [z3.Int("len%d" % i) for i in range(m)]
+        s, e = z3.Int("s"), z3.Int("e")
+        for x in L:
+            q.add(x >= 0, x <= B["row_line_len"])
+        total = z3.Sum(L) + (m - 1) if m > 1 else L[0]
+        q.add(s >= 0, s < e, e <= total)
+        state, row, uf, sol = z3.IntVal(0), z3.IntVal(-1), z3.BoolVal(False), z3.IntVal(0)
+        exp = z3.IntVal(-1)
+        for i in range(m):
+            eol = sol + L[i] + 1
+            val = {"end_of_line": eol, "start_of_line": sol, "start": s, "end": e}
+            c = lambda k: CMP[R[k]["cond"][1]](val[R[k]["cond"][0]], val[R[k]["cond"][2]])
+            c1, c2, c3 = c("before_to_after"), c("before_to_inside"), c("inside_to_after")
+            t1 = z3.And(state == 0, c1)
+            t2 = z3.And(state == 0, z3.Not(c1), c2)
+            t3 = z3.And(state == 1, c3)
+            uf = z3.Or(uf, z3.And(z3.Or(t1, t2), s < sol))
+            row = z3.If(t1, i + R["before_to_after"]["row_plus"], z3.If(t2, i + R["before_to_inside"]["row_plus"], row))
+            state = z3.If(t1, 2, z3.If(t2, 1, z3.If(t3, 2, state)))
+            exp = z3.If(z3.And(sol <= s, s < eol), i + 1, exp)
+            sol = eol
+        q.add(z3.Or(uf, row != exp))
+        r = q.check(cross_check=(m <= 3), cross_timeout_s=60)
+        queries.append(q.summary())
+        if r == "unsat":
+            continue
+        if r != "sat":
+            raise Inconclusive("solver answered %s" % r)
+        mdl = q.model()
+        ev = lambda t: mdl.eval(t, model_completion=True).as_long()
+        lens, s_, e_ = [ev(x) for x in L], ev(s), ev(e)
+        text = "\n".join("x" * l for l in lens)
+        rr = run_driver(binary, [{"text": text, "start": s_, "end": e_}])[0]
+        got = "PANIC" if rr.get("panic") else rr.get("row")
+        want = expected_row(lens, s_)
+        samples.append({"text": text, "span_bytes": [s_, e_], "real_row": got, "expected_row": want})
+        if got == want:
+            infra.append("row model %r [%d,%d) does not reproduce natively: row %r is right" % (text, s_, e_, got))
+            break
+        rp = os.path.join(REPLAYS, PROP, "row_lines%d" % m)
+        os.makedirs(rp, exist_ok=True)
+        with open(os.path.join(rp, "input.json"), "w") as f:
+            f.write(json.dumps({"text": text, "start": s_, "end": e_}) + "\n")
+        with open(os.path.join(rp, "REPLAY.md"), "w") as f:
+            f.write("Property C31: text %r, span bytes [%d,%d): reported row %r, the span starts on line %r\nRun: bash %s/replay.sh\n" % (text, s_, e_, got, want, rp))
+        with open(os.path.join(rp, "replay.sh"), "w") as f:
+            f.write("#!/bin/bash\n%s < %s/input.json\nexit 1\n" % (binary, rp))
+        violations.append(("text %r, span bytes [%d,%d): reported row is %r, the span starts on line %r" % (text, s_, e_, got, want), rp))
+        break
+    return R, n_guard, n_valid
+
+
 def main():
     t0 = time.time()
     T_ = tier()
-    B = {"chars": 4, "preceding_lines": 1} if T_ == "quick" else {"chars": 7, "preceding_lines": 2}
+    B = {"chars": 4, "preceding_lines": 1, "row_lines": 4, "row_line_len": 6} if T_ == "quick" else {"chars": 7, "preceding_lines": 2, "row_lines": 7, "row_line_len": 12}
     violations, known_lines, infra, queries, samples = [], [], [], [], []
     n_valid = 0
     X = None
+    R, n_row_guard, n_row_valid = None, 0, 0
     os.makedirs(os.path.join(REPLAYS, PROP), exist_ok=True)
     try:
         binary = build_native("carats_driver")
@@ -240,6 +405,9 @@ def main():
                 break
             if done:
                 break
+        # ---- clause B: the reported row
+        if not violations and not infra:
+            R, n_row_guard, n_row_valid = row_clause(binary, B, queries, samples, violations, infra)
         n_unsat = len([q for q in queries if q["result"] == "unsat"])
         log("  %d queries, %d unsat, %d violations" % (len(queries), n_unsat, len(violations)))
     except Inconclusive as e:
@@ -247,22 +415,25 @@ def main():
 
     n_unsat = len([q for q in queries if q["result"] == "unsat"])
     cov = {
-        "explanation": "One clause of C31 (one caret per character, under exactly the span's characters, single-line spans): the byte quantities and the iteration domains of "
+        "explanation": "Clause B (the reported row is the line on which the span starts): the span-state machine of the line loop (the three comparisons that leave Before / Inside, "
+                       "the row expression, the column subtraction) is re-read from source; the text is up to row_lines lines of symbolic byte length and the span any non-empty byte range "
+                       "inside it; z3 decides whether the reported row can differ from the line containing the span's first byte or the column subtraction can underflow; models are replayed. "
+                       "Clause A (one caret per character, under exactly the span's characters, single-line spans): the byte quantities and the iteration domains of "
                        "the three loops that build the caret line are re-read from source; the target line is a sequence of characters with symbolic UTF-8 widths; z3 decides "
                        "whether the counts of leading spaces / carets / trailing spaces can differ from the character counts before / in / after the span; models are replayed "
                        "through the real text_with_carats.",
-        "functions_encoded": ["common_lang_types::text_with_carats_and_line_count_buffer_and_line_numbers (line accumulation, start/end_of_carats, guard, caret-line loops)"],
-        "extracted": X, "source_fingerprint": repo_fingerprint([F_SRC]),
+        "functions_encoded": ["common_lang_types::text_with_carats_and_line_count_buffer_and_line_numbers (line accumulation, start/end_of_carats, guard, caret-line loops; span-state machine and line_row)"],
+        "extracted": X, "extracted_row_state_machine": R, "row_guard_inputs": n_row_guard, "row_translator_validation_inputs_agreeing": n_row_valid, "source_fingerprint": repo_fingerprint([F_SRC]),
         "bounds": dict(B, widths="every mixture of 1-4 byte characters", spans="non-empty, inside one line, on character boundaries; no outer span"),
         "queries": queries[:4] + queries[-2:], "queries_discharged": len(queries), "solver_time_s": round(sum(q["solver_s"] for q in queries), 2),
         "translator_validation_inputs_agreeing": n_valid,
-        "evaluations": len(queries) + n_valid, "distinct_nontrivial": n_unsat + len(samples),
+        "evaluations": len(queries) + n_valid + n_row_valid, "distinct_nontrivial": n_unsat + len(samples),
         "rule": "evaluations = SMT queries (one per number of preceding lines and characters) + probes on which the extracted loop domains reproduce the real caret line; "
                 "distinct_nontrivial = queries answered unsat + models replayed natively",
         "samples": samples[:6] or [{"note": "none"}], "exhaustive": False, "known_findings_reported": known_lines,
     }
     assumptions = [
-        "PARTIAL: only the caret line of a span that lies inside one line; panics, multi-line spans, the line number, the context-line window, outer spans and colour are outside the claim "
+        "PARTIAL: the caret line of a span that lies inside one line, and the reported row of any span inside the text (no outer span); other panics, the caret lines of multi-line spans, the column's unit, the context-line window, outer spans and colour are outside the claim "
         "(CBMC does not finish symbolic execution of the real function even for 4-byte texts: DESIGN.md M7, M12)",
         "the control flow around the loops is not translated: for a single-line span the first source line that prints carets is the span's line (validated on the probes through the real function)",
         "a character is a Unicode scalar value (what the property counts); display width (East Asian wide, combining marks) is not modelled",
